@@ -197,6 +197,14 @@ fn check_nest(entries: &[Vec<u8>]) -> Vec<Viol> {
         if got_ll != want {
             out.push(viol("lossless-and-or", format!("field {:?} ({}) statuses {:?}: lossless says {}, expected {}", text, how, entries, got_ll, want)));
         }
+        // every entry on its own, through the handle the field hands out
+        for (i, (e, alts)) in r.entries().zip(entries.iter()).enumerate() {
+            let want_e = alts.iter().any(|s| *s == 0);
+            let got_e = e.satisfied_by(closure);
+            if got_e != want_e {
+                out.push(viol("lossless-entry", format!("field {:?} ({}) statuses {:?}: entry {} says {}, expected {}", text, how, entries, i, got_e, want_e)));
+            }
+        }
     }
     for (how, r) in ly_variants(&text) {
         let got_ly = r.satisfied_by(closure);
